@@ -200,6 +200,22 @@ ROUND3 = {
     'C20': 'Third round: model-level constants as coordinates 16-18.',
 }
 
+ROUND4 = {
+    'C01': 'Fourth round: 22 operations (two more spherical worlds with all depth surfaces at points: mirrored points with equal cartesian x and y, a tag column in a world over the same polygons with other surfaces), a seventh batching world whose features lack whole kinds of models, deprecated gravity argument with a non-default value.',
+    'C05': 'Fourth round: plate models with a top hotter than the bottom, composition lists written in descending order, slab models above the slab top (negative top truncation, ranges above / across / below the top).',
+    'C06': 'Fourth round: dips differing by thousandths of a degree, top truncation entries for faults, top truncation beyond half the thickness.',
+    'C07': 'Fourth round: surface lookup on polygons turned by 30 degrees at (1e7,1e7) (the last-resort triangle test is reached).',
+    'C08': 'Fourth round: every cartesian signature says whether a depth surface of the moved world is incompletely triangulated and whether its nodes are collinear / cocircular up to rounding (read from the world object).',
+    'C09': 'Fourth round: cross sections whose second point lies more than half a turn of longitude away.',
+    'C10': 'Fourth round: suites noop (sections without a model vs sections with a model that adds zero) and reverse (the trench listed from the other end, bodies tapering out along strike).',
+    'C11': 'Fourth round: a probe in general position next to every lattice probe.',
+    'C12': 'Fourth round: unsigned 32-bit entries replaced by their value plus 2^32 must be rejected.',
+    'C14': 'Fourth round: adiabatic mantle-layer model (reads world-level constants) in the schedule and TSan worlds, chunks closed over 360 degrees in the -j comparison and under TSan.',
+    'C16': 'Fourth round: suite handles (several handles with identical arguments alive at once, a file rewritten between two creations); TSan pass with 20 threads using three request lists of different lengths.',
+    'C17': 'Fourth round: indented option lines, hexadecimal / inf / nan / overflowing tokens as malformed rows.',
+    'C19': 'Fourth round: hook family (trenches of 5-9 coordinates curling one way, check points up to 300 km away).',
+}
+
 def main():
     props = [json.loads(l) for l in open(f'{V}/properties.jsonl')]
     hooks_commits = []
@@ -216,6 +232,7 @@ def main():
             lvl, eng, tech, text, note, ref = CHECKS[i]
             if i in ROUND2: text = text + ' ' + ROUND2[i]
             if i in ROUND3: text = text + ' ' + ROUND3[i]
+            if i in ROUND4: text = text + ' ' + ROUND4[i]
             c = {
                 'property_id': i,
                 'quick_cmd': f'./check {i} --tier quick',
